@@ -5,49 +5,49 @@
 package dns
 
 // String() never panics, whatever octets the record was unpacked from
-//@ func sprintName [C05]
+//@ func sprintName [C02 C05]
 //@   loop 1 invariant 0 <= i
-//@ func sprintTxtOctet [C05]
+//@ func sprintTxtOctet [C02 C05]
 //@   loop 1 invariant 0 <= i
-//@ func sprintTxt [C05]
+//@ func sprintTxt [C02 C05]
 //@   loop 2 invariant 0 <= j
-//@ func writeTXTStringByte [C05]
-//@ func (Type).String [C05]
-//@ func (Class).String [C05]
-//@ func (*RR_Header).String [C05]
-//@ func cmToM [C05]
-//@ func rfc3597Header [C05]
-//@ func (*APLPrefix).str [C05]
-//@ func TimeToString [C05]
-//@ func saltToString [C05]
-//@ func (SVCBKey).String [C05]
-//@ iface EDNS0.String [C05]
-//@ iface SVCBKeyValue.String [C05]
+//@ func writeTXTStringByte [C02 C05]
+//@ func (Type).String [C02 C05]
+//@ func (Class).String [C02 C05]
+//@ func (*RR_Header).String [C02 C05]
+//@ func cmToM [C02 C05]
+//@ func rfc3597Header [C02 C05]
+//@ func (*APLPrefix).str [C02 C05]
+//@ func TimeToString [C02 C05]
+//@ func saltToString [C02 C05]
+//@ func (SVCBKey).String [C02 C05]
+//@ iface EDNS0.String [C02 C05]
+//@ iface SVCBKeyValue.String [C02 C05]
 
 // fmt's zero-padded fixed-width hexadecimal verbs yield at least the requested number of digits (trusted);
 // the verbs themselves are pinned, since the assumption is about exactly these
-//@ func euiToString [C05]
+//@ func euiToString [C02 C05]
 //@   assume at "hex = hex[0:2] + @1" w16: len(hex) >= 16
 //@   assume at "hex = hex[0:2] + @2" w12: len(hex) >= 12
 //@   callsite "Sprintf" fmtw: arg0 == "%16.16x" || arg0 == "%12.12x"
-//@ func (*NID).String [C05]
+//@ func (*NID).String [C02 C05]
 //@   assume at "node[0:4] + " w16: len(node) >= 16
 //@   callsite "Sprintf" fmt16: arg0 == "%0.16x"
-//@ func (*L64).String [C05]
+//@ func (*L64).String [C02 C05]
 //@   assume at "node[0:4] + " w16: len(node) >= 16
 //@   callsite "Sprintf" fmt16: arg0 == "%0.16X"
 
 // an SVCB/HTTPS record holds no nil parameter (unpacking and parsing never produce one)
-//@ func (*SVCB).String [C05]
+//@ func (*SVCB).String [C02 C05]
 //@   assume at "e.Key().String() + " nonnil: e != nil
 
 // RFC 3597 generic form: the length printed after \# is the number of RDATA octets (half the hex digits)
-//@ func (*RFC3597).String [C05]
+//@ func (*RFC3597).String [C02 C05]
 //@   exit rdlen: callarg("Itoa", 0) == len(rr.Rdata) / 2
 // presentation width of one octet inside a quoted string: backslash and quote take two characters, other
 // printable octets one, everything else the four characters of \DDD
 //@ spec txtw(b int) int = (b == 34 || b == 92) ? 2 : ((b < 32 || b > 126) ? 4 : 1)
-//@ func writeTXTStringByte [C05]
+//@ func writeTXTStringByte [C02 C05]
 //@   requires s != nil
 //@   ensures width: ghost(s, "len") == old(ghost(s, "len")) + txtw(b)
 //@   modifies H.strings.Builder.addr.v@s H.strings.Builder.buf.cap@s H.strings.Builder.buf.len@s H.strings.Builder.buf.off@s H.strings.Builder.buf.ref@s G.strings.Builder.len@s
@@ -56,7 +56,7 @@ package dns
 // printable octets are written as they are, everything else as \DDD
 //@ spec svcw(b int) int = (b == 34 || b == 59 || b == 32 || b == 92) ? 2 : ((b < 32 || b > 126) ? 4 : 1)
 //@ spec svcsum(s seq, n int) int = n <= 0 ? 0 : svcsum(s, n - 1) + svcw(s[n-1]) decreases n
-//@ func svcbParamToStr [C05]
+//@ func svcbParamToStr [C02 C05]
 //@   assume at "str.Grow(4 * len(s))" empty: ghost(str, "len") == 0
 //@   ensures width: len(ret0) == svcsum(s, len(s))
 //@   loop 1 invariant ghost(str, "len") == svcsum(s, rangeindex + 1) && -1 <= rangeindex && rangeindex < len(s)
